@@ -52,6 +52,7 @@ const (
 	KInt64Str   = "C16-INT64-UNROUNDED-STRING"
 	KMapMethod  = "C16-MAP-METHOD-NAME-WRITE-DROPPED"
 	KNamedKey   = "C16-MAP-NAMED-KEY-PANIC"
+	KStoreI64   = "C16-STORE-INT64-VIA-FLOAT"
 )
 
 func impossible(class string, known ...string) Den {
@@ -715,4 +716,17 @@ func HasUnroundedGoInt(v JV) bool {
 		}
 	}
 	return false
+}
+
+// IsInexactInt: a Go integer description that no double denotes (|v| > 2^53 and not a double).
+func IsInexactInt(g GV) bool {
+	if g.K != "num" {
+		return false
+	}
+	i, ok := new(big.Int).SetString(g.N, 10)
+	if !ok {
+		return false
+	}
+	f, acc := new(big.Float).SetInt(i).Float64()
+	return acc != big.Exact || math.IsInf(f, 0)
 }
